@@ -299,8 +299,7 @@ def run(ctx):
     ll2, lstuck = explore(ctx, lexe, lruns, "lock")
     check_logs(ctx, "LockMonitor", "LockMonitor.cfg", llines + ll2, "lock", lstuck)
     ctx.evaluations = ctx.traces
-    ctx.distinct.update(range(ctx.traces))  # every execution has its own seed / DFS tape / TLC behaviour
-    ctx.extra["rule"] += "; distinct_nontrivial counts executions (each from a distinct seed, DFS tape or TLC behaviour; duplicates among random schedules are possible and not removed)"
+    ctx.extra["rule"] += "; distinct_nontrivial counts executions with pairwise different observable event logs (md5 of the log without the seed)"
     if ctx.extra.get("model_violations") and not ctx.violations:
         # the model of the code violates the property but no real execution did: the model has
         # drifted from the code or exploration was too shallow; say so, do not alarm
